@@ -178,6 +178,7 @@ pub fn required_probes(property: &str) -> Vec<&'static str> {
         "C06" => vec!["c06_statement_checked", "c06_decided_among_several_shards", "c06_set_sharding_key", "c06_set_shard", "c06_set_shard_out_of_range", "c06_path_sticky", "c06_path_comment_key", "c06_path_comment_shard", "c06_path_auto_literal", "c06_path_bind_text", "c06_path_bind_binary8", "c06_path_bind_binary4", "c06_path_bind_binary2"],
         "C05" => vec!["c05_statement_checked", "c05_decided_plain_read_replica", "c05_decided_write_primary", "c05_decided_ddl_primary", "c05_decided_utility_primary", "c05_decided_dm_cte_primary", "c05_decided_lock_primary", "c05_decided_select_into_primary", "c05_decided_txn_start_primary", "c05_decided_multi_with_write_primary", "c05_set_server_role_primary", "c05_set_server_role_replica", "c05_set_server_role_auto"],
         "C19" => vec!["c19_listed_statement_checked", "c19_intercept_checked", "c19_control_plugins_disabled", "c19_where_simple", "c19_where_multi_statement", "c19_where_extended", "c19_where_batch_first", "c19_where_batch_last", "c19_where_in_transaction_simple", "c19_where_in_transaction_extended", "c19_where_named_parse_then_later_bind", "c19_spelling_upper", "c19_spelling_quoted", "c19_spelling_qualified"],
+        "C20" => vec!["relay_compared_steps", "c20_latency_checked", "c20_mirror_connection", "c20_mirror_unit_checked"],
         "C16" => vec!["c16_pause_interval", "c16_txn_sent_while_paused", "c16_client_held_then_released", "yield:pool.wait_paused.between"],
         "C08" => vec!["c08_execute_checked", "c08_execute_on_reused_connection", "c08_eviction_close_sent", "c08_reference_compared_steps"],
         _ => vec![],
@@ -460,6 +461,7 @@ fn rule_of(property: &str) -> String {
         "C06" => "1-3 clients over 1-6 shards (0-1 replicas each), both sharding functions, default_shard fixed or random; per client 4-24 autocommit steps drawn from: SET SHARDING KEY, SET SHARD in and out of range, statements without a key (stickiness), the sharding_key and shard_id comment regexes, a literal equated with the automatic sharding key in SELECT/INSERT/UPDATE/DELETE/JOIN with qualified and quoted names, anonymous Parse/Bind/Execute with the key as text or binary int2/int4/int8 parameter, alone or next to another parameter; keys biased to 0, +-1, 32/64-bit extremes and negative values; every fourth run one whole shard is unreachable",
         "C05" => "1-3 clients over one shard with a primary and 1-2 replicas, read/write splitting on, parser on in most runs, all default_role and primary_reads_enabled values; per client 5-26 steps: statements of 10 classes known by construction (plain reads incl. CTE/UNION/VALUES/subqueries, INSERT/UPDATE/DELETE/MERGE/TRUNCATE, DDL, utility statements, data-modifying CTEs, SELECT FOR UPDATE/SHARE also nested, SELECT INTO, multi-statement mixes) in simple and anonymous extended protocol, explicit transactions with 1-3 statements, SET SERVER ROLE and SET PRIMARY READS in between; acceptance by the pooler's parser decided with the same sqlparser version; every fourth run all replicas or the primary are unreachable",
         "C19" => "1-2 clients, table_access with two listed tables, one intercept rule, query logger on/off, configured globally or per pool, statement cache on/off; statements mentioning a listed or unlisted relation in 12 positions (FROM, JOIN, subqueries, CTE, INSERT/UPDATE/DELETE target, USING, INSERT..SELECT, EXISTS, UPDATE..FROM) and 7 spellings (case, quotes, schema), sent alone, in multi-statement messages, in Parse..Sync batches with several Parses, inside transactions (simple and extended), and as a named Parse executed by a later Bind; the intercepted query in four spellings; every fourth run with plugins disabled",
+        "C20" => "1-3 clients without pool contention over a primary (and optional replica) with 0-3 mirrors attached to either; simple, extended and transactional requests with known server-side durations; per-mirror fault scripts: down from the start, refuse + connection kills (fin/rst) with or without recovery, connect hang, black hole after accept, slow replies (50-2000 ms), startup rejected, every statement answered with an error, connection kills at PRNG times; a quarter of the runs without mirrors (control), a quarter with healthy mirrors; calm network in 70% of the runs (latency oracle), swarm otherwise",
         "C16" => "PAUSE/RESUME cycles (global or per pool) by an admin client; workers running throughout, clients that are idle when the pause begins, clients arriving after the PAUSE acknowledgement, mid-transaction clients; both pool modes; random subset of the yield sites inside wait_paused and between wait_paused and checkout; RESUME at PRNG times including right after a held client's message went out",
         "C12" => "2-5 clients sharing 1-2 server connections; startup parameter sets and SET sequences of tracked and untracked parameters; every fourth run uses hostile values (quotes, backslashes, non-ASCII, empty)",
         _ => "see DESIGN.md",
